@@ -18,6 +18,8 @@ import OtterVerif.Conc.PolicySkeleton
 import OtterVerif.Gen.Skeleton
 import OtterVerif.Proofs.Nibble
 import OtterVerif.Proofs.SketchCount
+import OtterVerif.Proofs.SketchGen
+import OtterVerif.Pin.SketchSites
 
 namespace OtterVerif.Props.C18
 open OtterVerif OtterVerif.Impl.Sketch
@@ -156,5 +158,65 @@ theorem skeleton_policy_evictFromMain : Gen.Skeleton.policy_evictFromMain = Conc
 theorem skeleton_policy_evictFromWindow : Gen.Skeleton.policy_evictFromWindow = Conc.PolicySkeleton.policy_evictFromWindow := by decide
 theorem skeleton_policy_evictNodes : Gen.Skeleton.policy_evictNodes = Conc.PolicySkeleton.policy_evictNodes := by decide
 theorem skeleton_policy_admit : Gen.Skeleton.policy_admit = Conc.PolicySkeleton.policy_admit := by decide
+
+/-! ### The sketch model's arithmetic is the code's (Gen.SketchSites, regenerated from sketch.go on every run) -/
+
+open OtterVerif.Gen.SketchSites in
+/-- the four counters a recording bumps and the four an estimate reads are computed as in the code: block from the spread
+    hash and the block mask, byte i of the re-hashed value, its low bit for the word, bits 1-4 for the nibble -/
+theorem c18_gen_positions (s : Impl.Sketch.Sketch) (bh : BitVec 64) :
+    (Impl.Sketch.counterPosUnrolled s bh =
+      let ch := sketch_increment_a1 bh
+      let block := sketch_increment_a2 bh s.blockMask
+      let h0 := sketch_increment_a3 ch
+      let h1 := sketch_increment_a4 ch
+      let h2 := sketch_increment_a5 ch
+      let h3 := sketch_increment_a6 ch
+      [(sketch_increment_a11 block h0, sketch_increment_a7 h0), (sketch_increment_a12 block h1, sketch_increment_a8 h1),
+       (sketch_increment_a13 block h2, sketch_increment_a9 h2), (sketch_increment_a14 block h3, sketch_increment_a10 h3)]) ∧
+    (∀ i, i < 4 → Impl.Sketch.counterPos s bh i =
+      let ch := sketch_frequency_a2 bh
+      let block := sketch_frequency_a3 bh s.blockMask
+      let h := sketch_frequency_a5 ch (BitVec.ofNat 64 i)
+      (sketch_frequency_a8 block (BitVec.ofNat 64 i) (sketch_frequency_a7 h), sketch_frequency_a6 h)) :=
+  ⟨Proofs.SketchGen.increment_positions s bh, fun i hi => Proofs.SketchGen.frequency_position s bh i hi⟩
+
+open OtterVerif.Gen.SketchSites in
+/-- saturating 4-bit increment, minimum of four reads starting from all ones, nibble-wise halving on reset, aging exactly
+    when the sample is full -/
+theorem c18_gen_counters (s : Impl.Sketch.Sketch) (i j slot index f w count size sample : BitVec 64) :
+    (Impl.Sketch.incrementAt s i j =
+      let offset := sketch_incrementAt_a0 j
+      let mask := sketch_incrementAt_a1 offset
+      let w := s.table.getD i.toNat 0
+      if sketch_incrementAt_c0 mask w then
+        ({ s with table := s.table.setIfInBounds i.toNat (sketch_incrementAt_u0 offset w) }, sketch_incrementAt_r0)
+      else (s, sketch_incrementAt_r1)) ∧
+    Impl.Sketch.readCount s slot index = sketch_frequency_a9 index (s.table.getD slot.toNat 0) ∧
+    sketch_frequency_a10 (Impl.Sketch.readCount s slot index) f = Bv.umin f (Impl.Sketch.readCount s slot index) ∧
+    sketch_frequency_a0 = BitVec.allOnes 64 ∧
+    sketch_reset_a2 w = (w >>> 1) &&& Gen.SketchMix.resetMask ∧
+    sketch_reset_u1 count w = count + Bv.onesCount64 (w &&& Gen.SketchMix.oneMask) ∧
+    sketch_reset_a3 count size = (size - (count >>> 2)) >>> 1 ∧
+    sketch_increment_c2 sample size = (size == sample) :=
+  ⟨Proofs.SketchGen.incrementAt_gen s i j, (Proofs.SketchGen.frequency_read s slot index f).1,
+   (Proofs.SketchGen.frequency_read s slot index f).2.1, (Proofs.SketchGen.frequency_read s slot index f).2.2.1,
+   (Proofs.SketchGen.reset_gen w count size).1, (Proofs.SketchGen.reset_gen w count size).2.1,
+   (Proofs.SketchGen.reset_gen w count size).2.2, (Proofs.SketchGen.increment_gen size sample false false).1⟩
+
+open OtterVerif.Gen.SketchSites in
+/-- ensureCapacity: a request that fits the table is a no-op (`≤`, so a request for exactly the present length keeps the
+    counters); otherwise a zeroed table of the next power of two (at least 8) and a sample of ten times the maximum -/
+theorem c18_gen_ensureCapacity (s : Impl.Sketch.Sketch) (maximumSize : BitVec 64) :
+    Impl.Sketch.ensureCapacity s maximumSize =
+      if sketch_ensureCapacity_c0 (BitVec.ofNat 64 s.table.size) maximumSize then (s, false)
+      else
+        let newSize := sketch_ensureCapacity_a0 maximumSize
+        let newSize := if sketch_ensureCapacity_c2 newSize then sketch_ensureCapacity_a1 else newSize
+        let sampleSize := if sketch_ensureCapacity_c3 maximumSize then sketch_ensureCapacity_a4 maximumSize else sketch_ensureCapacity_a3
+        ({ table := Array.replicate newSize.toNat 0, sampleSize := sampleSize,
+           blockMask := sketch_ensureCapacity_a5 newSize, size := sketch_ensureCapacity_a6, initialized := true }, true) :=
+  Proofs.SketchGen.ensureCapacity_gen s maximumSize
+
 
 end OtterVerif.Props.C18
